@@ -8,6 +8,7 @@ import Msmart.Driver.Lan
 import Msmart.Driver.Cloud
 import Msmart.Driver.Cli
 import Msmart.Driver.Session
+import Msmart.Driver.Stack
 
 open Msmart Msmart.Driver
 
@@ -35,6 +36,9 @@ def handle (line : String) : String :=
     | some r => r
     | none =>
     match sessionOp op t with
+    | some r => r
+    | none =>
+    match stackOp op t with
     | some r => r
     | none => "bad-op"
 
